@@ -15,9 +15,10 @@ SP == " "
 TAB == "\t"
 LF == "\n"
 CR == "\r"
+NBSP == " "      \* U+00A0 NO-BREAK SPACE: whitespace for char::is_whitespace, not for is_ascii_whitespace
 
 (* char::is_whitespace restricted to the characters the generators use *)
-IsWS(c) == c \in {SP, TAB, LF, CR, "\f"}
+IsWS(c) == c \in {SP, TAB, LF, CR, "\f", NBSP}
 
 -----------------------------------------------------------------------------
 (* split_string_v2(string, multi_target) *)
